@@ -183,6 +183,9 @@ func (z *zmodemTransfer) handleZmodemError(msg string) {
 	}
 
 	z.writeMessage(msg)
+
+	// if the server stays quiet nothing else arms the cleanup timer, and input and the next output would be blocked
+	z.resetCleanupTimer()
 }
 
 func (z *zmodemTransfer) handleServerOutput(buf []byte) bool {
